@@ -90,8 +90,8 @@ def declare_handles(w, kind='apply'):
         'next_job': IntS,                   # next value of job_counter
     })
     J = w.classes['Job']
-    J.fields.pop('_event_flag', None)
-    J.fields['_event'] = ref('Event')
+    if J.fields.pop('_event_flag', None) is not None:
+        J.fields['_event'] = ref('Event')
     w.externals['<callable>'] = ext_callable
     w.externals['einfo.ExceptionInfo'] = ext_einfo
     w.externals['common.human_status'] = ext_human_status
